@@ -117,10 +117,12 @@ func doReq(vec *prometheus.MetricVec, names []string, q schedReq) string {
 		if q.form == 0 {
 			b := scratchLVs(q.t)
 			m, err = vec.GetMetricWithLabelValues(b...)
+			checkLVs(q.t, b[:len(q.t)], "GetMetricWithLabelValues")
 			scribbleLVs(b)
 		} else {
 			l := labelsOf(names, q.t)
 			m, err = vec.GetMetricWith(l)
+			checkLabels(labelsOf(names, q.t), l, "GetMetricWith")
 			scribbleLabels(l)
 		}
 		if err != nil {
@@ -132,10 +134,12 @@ func doReq(vec *prometheus.MetricVec, names []string, q schedReq) string {
 		if q.form == 0 {
 			b := scratchLVs(q.t)
 			out = emit.C(2, emit.B(vec.DeleteLabelValues(b...)))
+			checkLVs(q.t, b[:len(q.t)], "DeleteLabelValues")
 			scribbleLVs(b)
 		} else {
 			l := labelsOf(names, q.t)
 			out = emit.C(2, emit.B(vec.Delete(l)))
+			checkLabels(labelsOf(names, q.t), l, "Delete")
 			scribbleLabels(l)
 		}
 	case 2:
@@ -236,6 +240,9 @@ func runSched(c *cli.Ctx, r *emit.Rng) error {
 				ns[i] = emit.S(n)
 			}
 			fl := schedx.Flags(vr)
+			if vs := takeArgViolations(); len(vs) > 0 && len(direct) < 10 {
+				direct = append(direct, map[string]interface{}{"index": w.Len(), "what": "the library modified its caller's argument: " + vs[0]})
+			}
 			if fl != 0 {
 				direct = append(direct, map[string]interface{}{"index": w.Len(),
 					"what": fmt.Sprintf("scheduler flags %d (1 deadlock, 2 step limit, 4 panic) panics=%v", fl, vr.Panics)})
@@ -314,6 +321,9 @@ func runStressLin(c *cli.Ctx, r *emit.Rng) error {
 		}
 		close(start)
 		wg.Wait()
+		if vs := takeArgViolations(); len(vs) > 0 && len(direct) < 10 {
+			direct = append(direct, map[string]interface{}{"index": it, "what": "the library modified its caller's argument: " + vs[0]})
+		}
 		for ti, p := range panics {
 			if p != nil {
 				direct = append(direct, map[string]interface{}{"index": it, "what": fmt.Sprintf("goroutine %d panicked: %v", ti, p)})
